@@ -139,6 +139,7 @@ class Unit:
         if cls:
             tr = cls(ast, opts=opts)
         self.tr = tr
+        tr.rec_alias.update(opts.get("rec_alias", {}))
         aliases = {}
         for t in ast.tops:
             if t.get("kind") == "NamespaceDecl" and t.get("name") == "verif_use":
@@ -219,6 +220,14 @@ class Unit:
             seen.add(n)
             f = self.tr.funcs.get(n)
             if f is None:
+                for d in getattr(self, "stub_deps", {}).get(n, []):
+                    if d not in seen:
+                        stack.append(d)
+                stdl = getattr(self.tr, "stdlib", None)
+                if stdl is not None:
+                    for d in stdl.deps_of(n):
+                        if d not in seen:
+                            stack.append(d)
                 continue
             order.append(n)
             if n in stop and (n not in roots or not follow_roots):
@@ -467,7 +476,7 @@ class Unit:
         std_contracts = ""
         stdl = getattr(tr, "stdlib", None)
         if stdl is not None:
-            std_text = "".join(stdl.text.values())
+            std_text = "".join((v() if callable(v) else v) for v in stdl.text.values())
             used = set()
             for n in order:
                 f = tr.funcs.get(n)
@@ -478,6 +487,11 @@ class Unit:
                 std_contracts += decl + ";\n"
                 if cn in used:
                     replaced.append(cn)
+        # prototypes of every extracted function (model texts may refer to functions outside this proof's closure)
+        inorder = set(order)
+        for n2, f2 in tr.funcs.items():
+            if f2 is not None and n2 not in inorder:
+                protos.append(tr.signature(f2) + ";")
         head = "".join(parts) + exc_defs + tr.records_text() + "\n".join(tr.globals.values()) + "\n" + "\n".join(protos) + "\n" + std_contracts + std_text + "\n" + self.stubs + "\n" + self.helpers + "\n"
         text = head
         for n, t in fn_texts:
